@@ -29,6 +29,7 @@ func main() {
 		{"handlers", genHandlers},
 		{"shipped", genShipped},
 		{"sanfacts", genSanFacts},
+		{"builderfacts", genBuilderFacts},
 	}
 	for _, g := range gens {
 		if *only == "" || *only == g.name {
